@@ -6,8 +6,9 @@
    Newton step is read as real division (IEEE 0/0 = NaN is treated by the
    number-system independent theorems C11_nan_step_raises / C11_nr_wrapper_status). *)
 From Coq Require Import Reals ZArith List Bool Lia Lra QArith.
+From Coquelicot Require Import Coquelicot.
 From Sky Require Import Result Num NumR G_minimize M_Minimize M_MinimizeX S_Minimize
-  P_Minimize P_MinimizeWrap P_MinimizeScan P_MinimizeDeep P_MinimizeNaN P_MinimizeDom.
+  P_Minimize P_MinimizeWrap P_MinimizeScan P_MinimizeDeep P_MinimizeNaN P_MinimizeDom P_MinimizeMulti.
 Import ListNotations.
 Open Scope R_scope.
 
@@ -498,6 +499,29 @@ Proof.
   - intros a b Ha. destruct a; try discriminate. reflexivity.
   - repeat split; vm_compute; reflexivity.
 Qed.
+
+(* ================= round 4 ================= *)
+
+(* MultiDatasetTCLLHRatio.calculate_ns_grad2 (callee of the NR objective closure): for a data set entering the
+   composite log-likelihood ratio as L(ns * f) with L' = g and g' = h, the first derivative w.r.t. ns is
+   f * g(ns f) and the term the code sums, h(ns f) * f^2, is ITS derivative — the f'' handed to Newton-Raphson
+   is the derivative of the f' handed to it *)
+Theorem C11_multi_ns_grad2 : forall erfR (L g h : R -> R) (f ns : R),
+  (forall x, is_derive L x (g x)) -> (forall x, is_derive g x (h x)) ->
+  is_derive (fun n => L (multi_nsf (RNum erfR) n f)) ns (f * g (multi_nsf (RNum erfR) ns f)) /\
+  is_derive (fun n => f * g (multi_nsf (RNum erfR) n f)) ns
+            (multi_ns_grad2_term (RNum erfR) (h (multi_nsf (RNum erfR) ns f)) f).
+Proof. exact multi_ns_grad2_is_second_derivative. Qed.
+Print Assumptions C11_multi_ns_grad2.
+
+(* statement skeletons (fail-closed pins of the translator): the position of every check in
+   NR1dNsMinimizerImpl.minimize (NaN-value check after the re-evaluation, outside `if not at_boundary`),
+   NRNsScan2dMinimizerImpl.minimize (best_* stored inside the branch), Minimizer.minimize, calculate_ns_grad2 *)
+Theorem C11_statement_skeletons :
+  shape_nr1d_minimize = true /\ shape_scan_minimize = true /\ shape_wrapper_minimize = true /\
+  shape_multi_ns_grad2 = true.
+Proof. exact K_shapes. Qed.
+Print Assumptions C11_statement_skeletons.
 
 (* ---- non-vacuity ---- *)
 (* a strongly convex objective with non-vanishing second derivative meets the hypotheses *)
